@@ -28,6 +28,10 @@ func init() {
 
 func runC11(c *Ctx) {
 	p := c.Progs["mod"]
+	c.Rule("C11.Y", "compatibility with the party that is not changed with this code: pages of the previous build: new message fields decide nothing, every posted message is sent, the session ID comes from the body", 3)
+	ruleNewWireFieldNotDecisive(c, p, "C11.Y", "a page injected by the previous build (an open tab, a cached page) does not send that field, so it arrives as the zero value: its messages are dropped, reordered or refused", "agent/websockets.sessionMessage")
+	ruleDataLoopSendsEveryMessage(c, p, "C11.Y")
+	ruleShimSessionIDFromBodyOnly(c, p, "C11.Y")
 	c.Rule("C11.E", "encoder/decoder agreement between poll replies and data posts", 7)
 	c.Rule("C11.Q", "messages move only through two FIFO channels with one producer/consumer goroutine", 5)
 	c.Rule("C11.O", "order and completeness on both endpoints; request bodies are read whole; sessions forgotten only after delivery", 19)
@@ -517,8 +521,29 @@ func runC11(c *Ctx) {
 			c.Check("C11.O", "poll:marshals-returned-slice", p, mj.Pos(), ok, "the poll reply is json.Marshal of exactly the slice ReadServerMessages returned", "the poll endpoint does not marshal the slice returned by ReadServerMessages")
 			okw := false
 			for _, w := range Calls(pl, "(net/http.ResponseWriter).Write") {
-				if CallResult(Args(CallOf(w))[1], 0, "encoding/json.Marshal") != nil {
-					okw = true
+				wvs := []ssa.Value{Args(CallOf(w))[1]}
+				if prm, isP := wvs[0].(*ssa.Parameter); isP {
+					// written through a reply helper: what this endpoint hands to it (a body-less
+					// 408 may go through the same helper)
+					if info := helperOf(prm.Parent()); info != nil {
+						for k, x := range prm.Parent().Params {
+							if x != prm {
+								continue
+							}
+							for _, s := range info.sites {
+								if TopFunc(s.Parent()) == TopFunc(pl) || s.Parent() == pl {
+									if as := s.Common().Args; k < len(as) {
+										wvs = append(wvs, as[k])
+									}
+								}
+							}
+						}
+					}
+				}
+				for _, wv := range wvs {
+					if CallResult(wv, 0, "encoding/json.Marshal") != nil && Dominates(mj, w) || (CallResult(wv, 0, "encoding/json.Marshal") != nil && w.Parent() != pl) {
+						okw = true
+					}
 				}
 			}
 			c.Check("C11.O", "poll:writes-marshalled-reply", p, mj.Pos(), okw, "the marshalled bytes are what is written", "the poll endpoint does not write the marshalled reply")
